@@ -118,6 +118,14 @@ CHECKS = {
          "under order and repetition, insertion-encoding strategy = is_insertion_encodable, find_strategies(quick) = slow result minus long strategies. "
          "Exhaustive correspondence on all sets of <=3 permutations of length 1-4 with an independent oracle and all eight images.",
          "invariance of the core strategies under the eight images is evaluated (sym8find lines), not proved; FinitelyManySimples takes has_finite_simples as input (C16).", "5/C19"),
+ "C20": ("Lean 4 theorems: JSON round trip, read-after-writes for the generated open mode over all op histories, reader = file-value spec (missing/malformed reported, never other data), automaton DB invariants by induction over histories + correspondence + exhaustive enumeration of shipped data",
+         "Proved: from_json(dumps d) = d; for the write mode and reader shape extracted from the source each run, after ANY sequence of writes/reads from any "
+         "initial file system a read returns exactly the dataset last written to that name and other names are untouched; read_bisc_file returns data iff the "
+         "whole file is one well-formed JSON object of lists of lists of naturals, otherwise reports INVALID (absent, non-JSON, trailing data, wrong shape); "
+         "the DB returns the first automaton stored for a permutation after any store/load/create/restart history and memo agrees with file. "
+         "Exhaustive histories (<=5 calls over 2 names x 3 datasets, empty and pre-populated dirs) against an abstract last-write-wins oracle.",
+         "the shipped-data partition (all 28 files vs predicate and independent definitions) is a finite statement decided by complete enumeration in the harness; "
+         "automaton language equivalence is checked on all words of length <=7.", "5/C20"),
 }
 
 PENDING = {}
